@@ -34,15 +34,19 @@ def main():
     args = sys.argv[1:]
     if "--only" in args:
         only = args[args.index("--only") + 1]
+    # --kind mutants|benign|seeded restricts to one directory; --shard i/n takes every n-th patch of it (a full run is longer
+    # than one `vp run` allows, so the final run is split into parallel shards)
+    kinds = [args[args.index("--kind") + 1]] if "--kind" in args else ["mutants", "benign", "seeded"]
+    shard = tuple(int(x) for x in args[args.index("--shard") + 1].split("/")) if "--shard" in args else (0, 1)
     ensure_scratch()
     results = []
     evd = tempfile.mkdtemp(prefix="fv-ev-")
     for kind in ("mutants", "benign"):
         d = os.path.join(VERIF, "selftest", kind)
-        if not os.path.isdir(d):
+        if not os.path.isdir(d) or kind not in kinds:
             continue
-        for f in sorted(os.listdir(d)):
-            if not f.endswith(".patch"):
+        for ix, f in enumerate(sorted(x for x in os.listdir(d) if x.endswith(".patch"))):
+            if ix % shard[1] != shard[0]:
                 continue
             if only and only not in f:
                 continue
@@ -76,8 +80,10 @@ def main():
                     print(out[-1500:])
     # seeded changes from independent sub-agents: /verif/seeded/<id>/patch.diff
     sd = os.path.join(VERIF, "seeded")
-    for f in sorted(os.listdir(sd)) if os.path.isdir(sd) else []:
+    for ix, f in enumerate(sorted(x for x in os.listdir(sd) if os.path.exists(os.path.join(sd, x, "patch.diff"))) if os.path.isdir(sd) and "seeded" in kinds else []):
         path = os.path.join(sd, f, "patch.diff")
+        if ix % shard[1] != shard[0]:
+            continue
         if not os.path.exists(path) or (only and only not in f and only != "seeded"):
             continue
         meta = json.load(open(os.path.join(sd, f, "meta.json")))
